@@ -22,7 +22,9 @@ def handle (op : String) (j : Json) : Except String Json := do
     let elems ← j.getObjValAs? (Array Nat) "elems"
     let refs ← (← j.getObjValAs? (Array Json) "refs").toList.mapM refOf
     let sub ← j.getObjValAs? (Array Nat) "sub"
-    match delete { elems := elems.toList, refs := refs } sub.toList with
+    -- "local": the members of `sub` that hang below the target in its own fragment file (default: all)
+    let loc := match j.getObjValAs? (Array Nat) "local" with | .ok a => a.toList | .error _ => sub.toList
+    match deleteAcrossFragments { elems := elems.toList, refs := refs } sub.toList loc with
     | .error .notImplemented => pure (Json.str "NotImplementedError")
     | .error .other => pure (Json.str "Error")
     | .ok g =>
